@@ -457,3 +457,7 @@ mod tests {
         assert_eq!(ty, 32);
     }
 }
+
+// verification hook (guard: cfg(kani), set only by `cargo kani`): harness module lives in /verif
+#[cfg(kani)]
+mod verif_kani;
